@@ -109,6 +109,8 @@ pub fn run(n: usize, rng: &mut Rng, rep: &mut Report) {
             }
         };
         let full = wrap_ctx(rng, &doc, depth);
+        // "line endings normalised": the same document with CRLF or bare CR line endings must give the same content
+        let full = match rng.below(4) { 0 => full.replace('\n', "\r\n"), 1 => full.replace('\n', "\r"), _ => full };
         let input = format!("kind={} depth={} src={}", what, depth, hexs(&full));
         let tree = match crate::util::guarded(|| md.parse(&full)) { Ok(t) => t, Err(_) => { rep.stats.count("skipped_panic_C01"); continue; } };
         rep.stats.case(&input, want.len() > 3);
